@@ -33,6 +33,14 @@ Bounds
             interpreter under a 90 s watchdog) and compared with the serial result; 2 CLI runs.
   thorough: depth 2: 3000 random subsets; depth 3: 400; depth 4: 12; 300 filtered; 250
             pyramids x workers {2, 3, 4}; 12 CLI runs.
+  both  : colour boundary contents for png RGB/RGBA, jpg RGB, npy RGB/RGBA: depth 1: all 15
+            non-empty subsets of opaque pure-black leaves (+4/40 random subsets of boundary
+            kinds); depth 2: each of the 4 quartets entirely opaque black beside random other
+            leaves (+3/60 pyramids whose quartets each draw one boundary kind); depth 3: 1/12 with
+            a 4x4 block of opaque black leaves; 6/40 of them also re-run in parallel.  Boundary
+            kinds: opaque black, opaque white, opaque black with transparent holes, an entirely
+            transparent tile whose pixels carry colour (stored as a file: a child that exists
+            and is entirely undefined), opaque black with transparent pixels carrying colour.
   Leaf contents: random pixels with 5-60 % undefined, fully defined, a single defined pixel,
   ~1 % defined, aligned undefined 2x2/4x4 blocks and rows, all-undefined leaves (never
   stored), faint RGBA (alpha 1..3, merges to an entirely transparent parent), faint integer
@@ -66,6 +74,12 @@ O_SP = "rt/cascade_images/serial-equals-parallel"
 COMBOS = [("png", "RGB"), ("png", "RGBA"), ("jpg", "RGB")] + [("npy", m) for m in M.MODES] + \
          [("fits", m) for m in ("U8", "I16", "I32", "F32", "F64")]
 KINDS = ["mixed", "mixed", "full", "blocks", "sparse", "single", "allundef"]
+# colour data: boundary contents of the statement's "all tile contents including ... transparent
+# pixels" -- defined pixels whose colour is the extreme value (opaque black / opaque white), black
+# with transparent holes, and transparent pixels that still carry colour values
+COLOUR_COMBOS = [("png", "RGB"), ("png", "RGBA"), ("jpg", "RGB"), ("npy", "RGB"), ("npy", "RGBA")]
+COLOUR_KINDS = {"RGB": ["black", "black", "black", "white", "mixed"],
+                "RGBA": ["black", "black", "black", "blackpart", "hidden", "white", "hiddenpart", "mixed"]}
 
 
 # ----------------------------------------------------------------------------- leaves
@@ -73,6 +87,24 @@ KINDS = ["mixed", "mixed", "full", "blocks", "sparse", "single", "allundef"]
 def leaf_array(spec, x, y, kind):
     """Stored (file-orientation) content of leaf (x, y)."""
     nprng = np.random.default_rng([spec["seed"], x, y])
+    mode = spec["mode"]
+    if mode in M.COLOUR_MODES and kind in ("black", "white", "blackpart", "hidden", "hiddenpart"):
+        ch = M.DTYPES[mode][1]
+        a = np.zeros((256, 256, ch), np.uint8)
+        if kind == "white":
+            a[...] = 255
+        if ch == 4:
+            a[..., 3] = 255
+            if kind == "blackpart":      # opaque black with transparent (and colourless) holes
+                a[nprng.random((256, 256)) < float(nprng.uniform(0.05, 0.6)), 3] = 0
+            elif kind == "hidden":       # entirely transparent, every pixel carries a colour
+                a[..., :3] = nprng.integers(1, 256, (256, 256, 3), dtype=np.uint8)
+                a[..., 3] = 0
+            elif kind == "hiddenpart":   # opaque black where defined, coloured where transparent
+                u = nprng.random((256, 256)) < float(nprng.uniform(0.05, 0.6))
+                a[u, :3] = nprng.integers(1, 256, (int(u.sum()), 3), dtype=np.uint8)
+                a[u, 3] = 0
+        return a
     if spec["format"] == "jpg":
         # smooth content so that the lossy codec stays close: ramps + a colour per leaf
         r = np.linspace(30, 220, 256)[:, None] + np.zeros((1, 256))
@@ -224,8 +256,10 @@ def cascade_case(spec, workdir):
         for x, y, kind in spec["leaves"]:
             arr = leaf_array(spec, x, y, kind)
             p = tile_path(base, fmt, depth, x, y)
-            if spec.get("leaf_writer") == "raw":
-                if not np.all(M.undef_mask(spec["mode"], arr)):
+            if spec.get("leaf_writer") == "raw" or kind == "hidden":
+                # (a transparent tile that carries colour values is stored as a file: it is a
+                # child that exists, all of whose pixels are undefined)
+                if kind == "hidden" or not np.all(M.undef_mask(spec["mode"], arr)):
                     raw_write(p, fmt, arr)
             else:
                 pio.write_image(Pos(depth, x, y), Image.from_array(arr.copy(), default_format=fmt))
@@ -369,14 +403,14 @@ def run(ctx):
     report = M.Reporter(ctx)
     serial = []
 
-    def mk(fmt, mode, depth, leaves, **kw):
+    def mk(fmt, mode, depth, leaves, keep_kinds=False, **kw):
         s = {"format": fmt, "mode": mode, "depth": depth, "leaves": leaves, "seed": rng.randrange(2 ** 31), "workers": 1,
              "filter": None, "stale": False, "negative": False, "dirty": False, "via": "api", "leaf_writer": "toasty"}
         if mode in ("I16", "I32") and rng.random() < 0.25:
             s["negative"] = True
         if mode == "RGBA" and rng.random() < 0.3:
             s["dirty"] = True
-        if (mode == "RGBA" or mode in M.INT_MODES) and rng.random() < 0.2:
+        if (mode == "RGBA" or mode in M.INT_MODES) and not keep_kinds and rng.random() < 0.2:
             s["leaves"] = [[x, y, rng.choice(["faint", "faint", k])] for x, y, k in leaves]
         if rng.random() < 0.2:
             s["stale"] = True
@@ -391,6 +425,44 @@ def run(ctx):
             leaves = [[k % 2, k // 2, rng.choice(KINDS)] for k in range(4) if sub >> k & 1]
             serial.append(mk(fmt, mode, 1, leaves))
     n2, n3, n4, nfilt, npar, ncli = (3000, 400, 12, 300, 250, 12) if ctx.thorough else (120, 24, 0, 24, 28, 2)
+    # colour pyramids with boundary contents (opaque black / white tiles, black tiles with
+    # transparent holes, transparent pixels and whole transparent tiles carrying colour values)
+    colour = []
+    nc1, nc2, nc3 = (40, 60, 12) if ctx.thorough else (4, 3, 1)
+    for fmt, mode in COLOUR_COMBOS:
+        ck = COLOUR_KINDS[mode]
+        for sub in range(1, 16):        # depth 1: every non-empty subset, all leaves opaque black
+            colour.append(mk(fmt, mode, 1, [[k % 2, k // 2, "black"] for k in range(4) if sub >> k & 1], keep_kinds=True))
+        for _ in range(nc1):            # depth 1: random subsets, kinds drawn from the colour kinds
+            sub = rng.randrange(1, 16)
+            colour.append(mk(fmt, mode, 1, [[k % 2, k // 2, rng.choice(ck)] for k in range(4) if sub >> k & 1], keep_kinds=True))
+        for q in range(4):              # depth 2: one complete quartet of opaque black leaves
+            qx, qy = 2 * (q % 2), 2 * (q // 2)
+            quartet = [[qx + i, qy + j, "black"] for j in range(2) for i in range(2)]
+            others = [[x, y, rng.choice(KINDS + ck)] for y in range(4) for x in range(4)
+                      if (x // 2, y // 2) != (q % 2, q // 2) and rng.random() < 0.4]
+            colour.append(mk(fmt, mode, 2, quartet + others, keep_kinds=True))
+        for _ in range(nc2):            # depth 2: every quartet draws one colour kind for its leaves, or mixes
+            leaves = []
+            for q in range(4):
+                qk = rng.choice(ck + [None])
+                for j in range(2):
+                    for i in range(2):
+                        if rng.random() < 0.8:
+                            leaves.append([2 * (q % 2) + i, 2 * (q // 2) + j, qk or rng.choice(KINDS + ck)])
+            colour.append(mk(fmt, mode, 2, leaves or [[0, 0, "black"]], keep_kinds=True))
+        for _ in range(nc3):            # depth 3: a 4x4 block of opaque black leaves (black up to level 1) + others
+            bx, by = 4 * rng.randrange(2), 4 * rng.randrange(2)
+            leaves = [[bx + i, by + j, "black"] for j in range(4) for i in range(4)]
+            leaves += [[x, y, rng.choice(ck)] for y in range(8) for x in range(8)
+                       if not (bx <= x < bx + 4 and by <= y < by + 4) and rng.random() < 0.1]
+            colour.append(mk(fmt, mode, 3, leaves, keep_kinds=True))
+    serial.extend(colour)
+    ctx.bound("colour boundary contents, for each of %d colour (format, mode) pairs (png/jpg/npy RGB, png/npy RGBA): depth 1: all 15 non-empty "
+              "subsets of opaque black leaves + %d random subsets; depth 2: each of the 4 quartets entirely opaque black beside random "
+              "other leaves + %d pyramids whose quartets each draw one kind; depth 3: %d with a 4x4 block of opaque black leaves. Kinds: "
+              "opaque black, opaque white, black with transparent holes, transparent-with-colour (whole tile, stored as a file; or "
+              "part of a tile)" % (len(COLOUR_COMBOS), nc1, nc2, nc3))
     for k in range(16):
         fmt, mode = rng.choice(COMBOS)
         serial.append(mk(fmt, mode, 2, [[k % 4, k // 4, "mixed"]]))
@@ -413,7 +485,10 @@ def run(ctx):
     wlist = [2, 3, 4] if ctx.thorough else [2, 4]
     cand = [s for s in serial if s["depth"] >= 1 and s["leaves"]]
     rng.shuffle(cand)
-    par_bases = sorted(cand[:npar], key=lambda s: -s["depth"])
+    ncpar = 40 if ctx.thorough else 6
+    cpar = [s for s in colour if s["depth"] >= 2]
+    rng.shuffle(cpar)
+    par_bases = sorted(cand[:npar] + [s for s in cpar[:ncpar] if s not in cand[:npar]], key=lambda s: -s["depth"])
     parallel = []
     for s in par_bases:
         for w in wlist:
@@ -424,8 +499,8 @@ def run(ctx):
         s = dict(par_bases[i % len(par_bases)])
         s.update({"via": "cli", "workers": rng.choice([1, 2, None]), "filter": None, "cli_format": rng.random() < 0.7})
         parallel.append(s)
-    ctx.bound("%d of these pyramids re-run with workers in %r and compared tile by tile with the serial run; %d runs through `toasty cascade`" % (
-        len(par_bases), wlist, ncli))
+    ctx.bound("%d of these pyramids (%d random + up to %d of the colour-boundary ones of depth >= 2) re-run with workers in %r and compared tile "
+              "by tile with the serial run; %d runs through `toasty cascade`" % (len(par_bases), npar, ncpar, wlist, ncli))
     ctx.assume("numpy .npy / PIL PNG+JPEG / astropy.io.fits decoders; JPEG parents: PIL's encoder is deterministic")
     ctx.note("integer tiles: zero is the undefined value, a parent whose merged tile is all zero must not exist; signed leaves are negative in ~25 % of the I16/I32 pyramids")
     ctx.note("a stale tile above the start level with no existing child is outside the explored domain (prior state is not quantified by C02)")
